@@ -496,6 +496,15 @@ PROPS['C09'].setdefault('scope', {})['OR-CALLBACK'] = (
     lambda f: f == 'Table.merge')
 PROPS['C13'].setdefault('scope', {})['OR-CALLBACK'] = (
     lambda f: f == 'Table.transform')
+PROPS['C12']['rules'] += [partial(R4.rule_kernels_see_sorted,
+                                  which=('subsample',))]
+PROPS['C13']['rules'] += [partial(R4.rule_kernels_see_sorted,
+                                  which=('transform',))]
+PROPS['C16']['rules'] += [R4.rule_kernels_see_sorted]
+PROPS['C16']['rules'].append(partial(G.rule_ef_args, roots=[
+    (_T, 'Table.to_hdf5'), (_T, 'Table.to_json'), (_T, 'Table.to_tsv'),
+    (_T, 'Table.delimited_self'), (_T, 'general_formatter'),
+    (_T, 'vlen_list_of_str_formatter')]))
 PROPS['C06']['rules'] += [R4.rule_transpose_returns,
                           R4.rule_dup_test_on_result]
 PROPS['C03']['rules'] += [R4.rule_convert_single_write]
@@ -506,6 +515,73 @@ PROPS['C20']['rules'] += [R4.rule_state_validated]
 PROPS['C19']['rules'] += [R4.rule_stat_labels]
 PROPS['C16']['rules'] += [rules_table.rule_or_coperm]
 PROPS['C07']['rules'] += [ax_kinds(['KERNEL'])]
+from . import rules_round5 as R5  # noqa: E402
+with open(_os.path.join(_os.path.dirname(_os.path.dirname(
+        _os.path.abspath(__file__))), 'properties.jsonl')) as _fh:
+    for _line in _fh:
+        _d = _json.loads(_line)
+        _pid = _d['id']
+        _files = {f for f in _d['anchors']['files'] if f.endswith('.py')}
+        for _r, _rid in ((R5.rule_param_used, 'AG-PARAMUSED'),
+                         (R5.rule_no_global_mutation, 'EF-GLOBAL'),
+                         (R5.rule_number_regex, 'TA-NUMREGEX')):
+            if _pid in SCOPE:
+                PROPS[_pid]['rules'].append(
+                    G.closure_scoped(_r, [_rid], SCOPE[_pid]))
+            else:
+                PROPS[_pid]['rules'].append(partial(_r, rels=_files))
+# CLI wrappers belong to the properties that name the command
+PROPS['C03']['rules'].append(partial(
+    R5.rule_param_used, rels={'biom/cli/table_converter.py'}))
+PROPS['C18']['rules'].append(partial(
+    R5.rule_param_used, rels={'biom/cli/metadata_adder.py'}))
+PROPS['C14']['rules'].append(partial(
+    R5.rule_param_used, rels={'biom/cli/table_subsetter.py'}))
+PROPS['C19']['rules'].append(partial(
+    R5.rule_param_used, rels={'biom/cli/table_summarizer.py',
+                              'biom/cli/table_head.py',
+                              'biom/cli/table_ids.py',
+                              'biom/cli/metadata_exporter.py'}))
+PROPS['C13']['rules'].append(partial(
+    R5.rule_param_used, rels={'biom/cli/table_normalizer.py'}))
+PROPS['C09']['rules'] += [R5.rule_work_vector]
+for _pid in ('C20', 'C17', 'C02', 'C03', 'C01', 'C14'):
+    PROPS[_pid]['rules'].append(partial(
+        R5.rule_broad_except, rels={'biom/parse.py', 'biom/table.py',
+                                    'biom/util.py'}))
+for _pid in ('C15', 'C17', 'C18', 'C19'):
+    PROPS[_pid]['rules'].append(R5.rule_small_round5)
+PROPS['C15'].setdefault('scope', {}).update({
+    k: (lambda f: False) for k in ('SB-FOLD', 'SB-ALLIDS', 'OR-TYPECHECK',
+                                   'AG-UCKINDS', 'TA-NUMLOSS')})
+PROPS['C17'].setdefault('scope', {}).update({
+    k: (lambda f: False) for k in ('SB-FOLD', 'SB-ALLIDS')})
+PROPS['C17']['scope']['AG-VALID'] = lambda f: False
+PROPS['C17']['scope']['TA-NUMLOSS'] = lambda f: f != '_int'
+PROPS['C18'].setdefault('scope', {}).update({
+    k: (lambda f: False) for k in ('SB-FOLD', 'SB-ALLIDS', 'OR-TYPECHECK',
+                                   'AG-UCKINDS', 'AG-VALID')})
+PROPS['C19'].setdefault('scope', {}).update({
+    k: (lambda f: False) for k in ('OR-TYPECHECK', 'AG-UCKINDS', 'AG-VALID',
+                                   'TA-NUMLOSS')})
+PROPS['C06']['rules'] += [R5.rule_delegations, R5.rule_id_width]
+PROPS['C13']['rules'] += [R5.rule_delegations]
+PROPS['C10']['rules'] += [R5.rule_delegations, R5.rule_concat_operands]
+PROPS['C11']['rules'] += [R5.rule_delegations]
+PROPS['C06'].setdefault('scope', {})['SB-DELEGATE'] = (
+    lambda f: f == 'Table.sort')
+PROPS['C13'].setdefault('scope', {})['SB-DELEGATE'] = (
+    lambda f: f in ('Table.norm', 'Table.rankdata'))
+PROPS['C10'].setdefault('scope', {})['SB-DELEGATE'] = (
+    lambda f: f == 'concat')
+PROPS['C11'].setdefault('scope', {})['SB-DELEGATE'] = (
+    lambda f: f == 'Table.partition')
+PROPS['C01']['rules'] += [R5.rule_formatter_dtype]
+PROPS['C08']['rules'] += [R5.rule_remove_empty_all_axes,
+                          R5.rule_filter_inputs]
+for _p in PROPS.values():
+    for _k, _v in R5.RULE_TEXT.items():
+        _p['rule_texts'].setdefault(_k, ' '.join(_v.split()))
 for _p in PROPS.values():
     for _k, _v in R4.RULE_TEXT.items():
         _p['rule_texts'].setdefault(_k, ' '.join(_v.split()))
